@@ -186,6 +186,8 @@ pub struct ARunner {
     pub app: [u8; 16],
     /// header fields, kept to rebuild the device around a restored session
     pub hdr: (lorawan_device::region::Region, u64, Vec<u32>, bool),
+    /// the application leaves downlinks in the device's queue until `take`
+    pub hold: bool,
 }
 
 fn parse_item(t: &str) -> Option<Item> {
@@ -217,7 +219,7 @@ fn parse_header(hd: &str) -> Option<(ARunner, Option<String>)> {
         dev.enable_class_c();
     }
     let forced2: Vec<u32> = if w[4] == "-" { vec![] } else { w[4].split(',').map(|x| x.parse().unwrap_or(0)).collect() };
-    Some((ARunner { dev, sh, nwk: NWK_KEY, app: APP_KEY, hdr: (reg, seed, forced2, w[7] == "1") }, None))
+    Some((ARunner { dev, sh, nwk: NWK_KEY, app: APP_KEY, hdr: (reg, seed, forced2, w[7] == "1"), hold: false }, None))
 }
 
 impl ARunner {
@@ -226,6 +228,12 @@ impl ARunner {
         c.join(";")
     }
     fn take_dls(&mut self) -> String {
+        if self.hold {
+            return "-".into();
+        }
+        self.take_dls_now()
+    }
+    fn take_dls_now(&mut self) -> String {
         let mut v = vec![];
         while let Some(d) = self.dev.take_downlink() {
             v.push(format!("{}:{}", d.fport, hex(&d.data)));
@@ -342,6 +350,11 @@ impl ARunner {
                 self.dev.set_datarate(lorawan_device::region::DR::from(n.parse::<u8>().ok()?));
                 Some("ok".into())
             }
+            ["hold"] => {
+                self.hold = true;
+                Some("ok".into())
+            }
+            ["take"] => Some(format!("dls={}", self.take_dls_now())),
             ["snap"] => Some(show_snap(&self.dev.verif_snapshot())),
             _ => None,
         }
